@@ -51,8 +51,16 @@ func VerifC04Round1Step() {
 	e := c04Setup(n, t)
 	gid := tss.GroupID(1)
 
-	// ---- pre-state
+	// ---- addressing of the message and pre-state
+	// The full product (status x who has submitted x member id x sender) is enumerated for the existing group in
+	// ROUND_1; for an unknown group id or another status a representative family is enough (any member id, the
+	// matching sender, member 1 submitted or not).
 	inRound1 := vs.Bool("group_in_round_1")
+	msgGroup := gid
+	if inRound1 && vs.Bool("unknown_group") {
+		msgGroup = 3
+	}
+	full := inRound1 && msgGroup == gid
 	status := types.GROUP_STATUS_ROUND_1
 	if !inRound1 {
 		status = types.GroupStatus(vs.Int("other_status", 0, 6))
@@ -65,35 +73,34 @@ func VerifC04Round1Step() {
 	nSub := 0
 	for m := 0; m < n; m++ {
 		dealers[m] = c04NewDealer(t)
-		submitted[m] = vs.Bool("already_submitted")
+		if full || m == 0 {
+			submitted[m] = vs.Bool("already_submitted")
+		}
 		if submitted[m] {
 			nSub++
 		}
 	}
 	c04StoreRound1(e, gid, dealers, submitted)
-	// bystander group: member 1 has submitted
+	// bystander group: member 1 has submitted; it is queued for nothing, but something else may be queued
 	other := []c04Dealer{c04NewDealer(2), c04NewDealer(2)}
 	saveT := e.t
 	e.t = 2
 	c04StoreRound1(e, 2, other, []bool{true, false})
 	e.t = saveT
-	var pending []tss.GroupID
-	if vs.Bool("bystander_group_pending") {
-		pending = append(pending, 2)
-	}
+	pending := []tss.GroupID{2}
 	if nSub == n && inRound1 {
 		pending = append(pending, gid) // invariant: complete round => queued
 	}
 	e.k.SetPendingProcessGroups(e.ctx, types.NewPendingProcessGroups(pending))
 
-	// ---- message
-	msgGroup := gid
-	if vs.Bool("unknown_group") {
-		msgGroup = 3
-	}
 	mid := tss.MemberID(vs.Pick("msg_member_id", n+2))
-	senderIdx := vs.Pick("sender", n+1)
 	isMember := mid >= 1 && int(mid) <= n
+	senderIdx := 0
+	if full {
+		senderIdx = vs.Pick("sender", n+1)
+	} else if isMember {
+		senderIdx = int(mid) - 1
+	}
 	gateOK := msgGroup == gid && inRound1 && isMember && senderIdx == int(mid)-1 && !submitted[int(mid)-1]
 
 	variant := c04r1Honest
